@@ -124,6 +124,7 @@ package common
 // the parent chain, [trustedParentCount, trustedParentCount+len(idx2pub)) locally.
 //@ func (pc *PubkeyCache) unsafePubkey(index) (pub, ok)
 //@   property C16 C17
+//@   opt noalloc
 //@   requires pc != nil && held(pc.rwLock) >= 1
 //@   requires forall r PcPtr :: {pctrig(r)} pctrig(r) && alloc(r) ==> pc_local(r.pub2idx, r.idx2pub, r.trustedParentCount) && pc_chain(r.parent, r, r.trustedParentCount, r.parent.trustedParentCount, len(r.parent.idx2pub)) && (r < pc ==> held(r.rwLock) == 0)
 //@   requires alloc(pc) && pctrig(pc) && pctrig(pc.parent)
@@ -134,6 +135,7 @@ package common
 
 //@ func (pc *PubkeyCache) Pubkey(index) (pub, ok)
 //@   property C16 C17
+//@   opt noalloc
 //@   requires pc != nil && held(pc.rwLock) == 0
 //@   requires forall r PcPtr :: {pctrig(r)} pctrig(r) && alloc(r) ==> pc_local(r.pub2idx, r.idx2pub, r.trustedParentCount) && pc_chain(r.parent, r, r.trustedParentCount, r.parent.trustedParentCount, len(r.parent.idx2pub)) && (r <= pc ==> held(r.rwLock) == 0)
 //@   requires alloc(pc) && pctrig(pc) && pctrig(pc.parent)
@@ -144,6 +146,7 @@ package common
 
 //@ func (pc *PubkeyCache) unsafeValidatorIndex(pubkey) (index, ok)
 //@   property C16 C17
+//@   opt noalloc
 //@   requires pc != nil && held(pc.rwLock) >= 1
 //@   requires forall r PcPtr :: {pctrig(r)} pctrig(r) && alloc(r) ==> pc_local(r.pub2idx, r.idx2pub, r.trustedParentCount) && pc_chain(r.parent, r, r.trustedParentCount, r.parent.trustedParentCount, len(r.parent.idx2pub)) && (r < pc ==> held(r.rwLock) == 0)
 //@   requires alloc(pc) && pctrig(pc) && pctrig(pc.parent)
@@ -155,6 +158,7 @@ package common
 
 //@ func (pc *PubkeyCache) ValidatorIndex(pubkey) (index, ok)
 //@   property C16 C17
+//@   opt noalloc
 //@   requires pc != nil && held(pc.rwLock) == 0
 //@   requires forall r PcPtr :: {pctrig(r)} pctrig(r) && alloc(r) ==> pc_local(r.pub2idx, r.idx2pub, r.trustedParentCount) && pc_chain(r.parent, r, r.trustedParentCount, r.parent.trustedParentCount, len(r.parent.idx2pub)) && (r <= pc ==> held(r.rwLock) == 0)
 //@   requires alloc(pc) && pctrig(pc) && pctrig(pc.parent)
